@@ -15,13 +15,13 @@ points) and `diagL2` (`(d-b)/√2`, the perpendicular distance to the diagonal).
 
 Parameters of the theorems, each with an explicit contract:
 * `sqrt`  — `SqrtSpec sqrt`: `0 ≤ sqrt x` and `sqrt x * sqrt x = x` for `0 ≤ x`;
-* `c = cos(π/4) = sin(π/4)` — `CosSpec c`: `0 ≤ c`, `c * c = 1/2`;
 * `lsa = scipy.optimize.linear_sum_assignment` — `LsaContract lsa`: on a square matrix that has an
   assignment of finite cost it returns `zip(arange n, σ)` for a permutation `σ` of minimum cost.
   Its optimality is *not* proved here; the harness certifies it on every run (`dualCheck_sound`).
 
 The statements hold over every ordered field; `…_real` instantiates them at `ℝ` with `Real.sqrt`
-and `Real.cos (π/4)`, `Real.sin (π/4)`.  Nothing here is about floating point.
+(since the /repo fix of the diagonal cost the code has no `cos(π/4)`, `sin(π/4)` any more: the cost is
+`(d-b)/np.sqrt(2)` as written, and the former parameter `c` with its contract `CosSpec` is gone).  Nothing here is about floating point.
 
 Remark on `b ≤ d`: the identity "value = min-sum cost" needs no ordering of the coordinates (for
 `d < b` both the code's and the specification's diagonal cost `(d-b)/√2` are the same negative
@@ -82,36 +82,36 @@ example : IsMinSum (M := Fin 2) (N := Fin 1) (fun i _ => if i = 0 then (1 : ℚ)
   refine ⟨⟨toEquiv ⟨fun i => if i = 0 then some 0 else none, fun _ => some 0, by decide⟩, by decide +kernel⟩, ?_⟩
   decide +kernel
 
-/-! ### 2. the rotation gives the diagonal cost -/
+/-! ### 2. the diagonal cost -/
 
 section rot
 variable {K : Type} [Field K] [LinearOrder K] [IsStrictOrderedRing K]
 
-/-- **[P] `rot_diag_cost`.**  The second coordinate of the row vector `(b,d)` times
-    `R = [[c, -c], [c, c]]` is `c·(d−b)`, and with `c·c = 1/2`, `c ≥ 0` that is `(d−b)/√2`. -/
-theorem rot_diag_cost (sqrt : K → K) (c : K) (hs : SqrtSpec sqrt) (hc : CosSpec c) (b d : K) :
-    (rot c c (b, d)).2 = c * (d - b) ∧ c * (d - b) = (d - b) / sqrt 2 := by
-  refine ⟨by simp only [rot]; ring, ?_⟩
-  exact hc.mul_eq_diagL2 hs (b, d)
+omit [LinearOrder K] [IsStrictOrderedRing K] in
+/-- **[P] `diag_cost_entry`.**  The entry the code puts on the diagonal of the `UR` / `UL` blocks for the
+    point `(b,d)`, `(S[:, 1] - S[:, 0]) / np.sqrt(2)`, is `(d−b)/√2` — the specification's `diagL2` as
+    written, for every `sqrt` (until the /repo fix of the diagonal cost this was the second coordinate
+    of `(b,d)` rotated by `π/4`, `c·d − c·b`, equal to `(d−b)/√2` only through `c·c = 1/2`, `c ≥ 0`). -/
+theorem diag_cost_entry (sqrt : K → K) (b d : K) :
+    diagc sqrt (b, d) = (d - b) / sqrt 2 ∧ diagc sqrt (b, d) = diagL2 sqrt (b, d) := ⟨rfl, rfl⟩
+
+omit [LinearOrder K] [IsStrictOrderedRing K] in
+/-- … and that is what stands in the model's matrix: row `i` of `S` against its own diagonal column,
+    column `j` of `T` against its own diagonal row -/
+theorem augEntry_diag (sqrt : K → K) (S T : List (K × K)) :
+    (∀ i (hi : i < S.length), augEntry sqrt S T i (T.length + i) = some ((S[i].2 - S[i].1) / sqrt 2)) ∧
+    (∀ j (hj : j < T.length), augEntry sqrt S T (S.length + j) j = some ((T[j].2 - T[j].1) / sqrt 2)) := by
+  refine ⟨fun i hi => ?_, fun j hj => ?_⟩
+  · have h1 : ¬ (T.length + i < T.length) := by omega
+    simp [augEntry, hi, h1, diagc]
+  · have h1 : ¬ (S.length + j < S.length) := by omega
+    simp [augEntry, hj, h1, diagc]
 
 theorem sqrtSpec_real : SqrtSpec Real.sqrt :=
   ⟨fun x _ => Real.sqrt_nonneg x, fun _ hx => Real.mul_self_sqrt hx⟩
 
-theorem cosSpec_real : CosSpec (Real.cos (Real.pi / 4)) := by
-  rw [Real.cos_pi_div_four]
-  refine ⟨by positivity, ?_⟩
-  have := Real.mul_self_sqrt (show (0 : ℝ) ≤ 2 by norm_num)
-  nlinarith
-
-/-- over `ℝ` with the code's `cp = cos(π/4)`, `sp = sin(π/4)`: the entry put on the diagonal of the
-    `UR`/`UL` blocks is `(d−b)/√2` -/
-theorem rot_diag_cost_real (b d : ℝ) :
-    (rot (Real.cos (Real.pi / 4)) (Real.sin (Real.pi / 4)) (b, d)).2 = (d - b) / Real.sqrt 2 := by
-  have h : Real.sin (Real.pi / 4) = Real.cos (Real.pi / 4) := by
-    rw [Real.sin_pi_div_four, Real.cos_pi_div_four]
-  rw [h]
-  obtain ⟨h1, h2⟩ := rot_diag_cost Real.sqrt _ sqrtSpec_real cosSpec_real b d
-  rw [h1, h2]
+/-- over `ℝ` with `Real.sqrt`: the entry put on the diagonal of the `UR`/`UL` blocks is `(d−b)/√2` -/
+theorem diag_cost_entry_real (b d : ℝ) : diagc Real.sqrt (b, d) = (d - b) / Real.sqrt 2 := rfl
 
 /-- for `b ≤ d` the diagonal cost is the Euclidean distance to the nearest diagonal point (the foot
     of the perpendicular), and no diagonal point is nearer -/
@@ -128,8 +128,8 @@ theorem costs_nonneg (sqrt : K → K) (hs : SqrtSpec sqrt) (S T : List (K × K))
 
 end rot
 
-example : (rot (Real.cos (Real.pi / 4)) (Real.sin (Real.pi / 4)) ((1 : ℝ), 3)).2 = 2 / Real.sqrt 2 := by
-  rw [rot_diag_cost_real]; norm_num
+example : diagc Real.sqrt ((1 : ℝ), 3) = 2 / Real.sqrt 2 := by
+  rw [diag_cost_entry_real]; norm_num
 
 /-! ### 3. weak duality: the certificate checked by `cert.dual` -/
 
@@ -259,16 +259,16 @@ theorem placeholder_irrelevant (sqrt : K → K) (hs : SqrtSpec sqrt) (S T : List
 
 /-- **[P] `wasserstein_eq_spec` (general form).**  For all diagrams `d1 d2` of every size (including
     0, with arbitrary multiplicities, diagonal points and points with non-finite death), every
-    square-root function, `c = cos(π/4)`, and EVERY assignment solver `lsa` meeting its contract, the
+    square-root function and EVERY assignment solver `lsa` meeting its contract, the
     routine returns a finite value `w`, `w` is the min-sum matching cost of the finite parts of the
     two diagrams, and the warning flags say exactly whether something was dropped. -/
-theorem wasserstein_eq_spec_dgm (sqrt : K → K) (c : K) (hs : SqrtSpec sqrt) (hc : CosSpec c)
+theorem wasserstein_eq_spec_dgm (sqrt : K → K) (hs : SqrtSpec sqrt)
     (lsa : Mat K → List (Nat × Nat)) (hl : LsaContract lsa) (d1 d2 : Dgm K) :
-    ∃ w rows, wasserstein sqrt c c lsa d1 d2 = .ok ⟨some w, warned d1, warned d2, rows⟩ ∧
+    ∃ w rows, wasserstein sqrt lsa d1 d2 = .ok ⟨some w, warned d1, warned d2, rows⟩ ∧
       SpecW sqrt (finitePart d1) (finitePart d2) w := by
-  obtain ⟨sel, w, hsel, hsum, hmin⟩ := model_value (prepared d1) (prepared d2) hs hc lsa hl
+  obtain ⟨sel, w, hsel, hsum, hmin⟩ := model_value (prepared d1) (prepared d2) hs lsa hl
   refine ⟨w, rowsOf (prepared d1).length (prepared d2).length
-    (lsa (augMatrix sqrt c c (prepared d1) (prepared d2))) sel, ?_, ?_⟩
+    (lsa (augMatrix sqrt (prepared d1) (prepared d2))) sel, ?_, ?_⟩
   · simp only [wasserstein, hsel, hsum]
   · exact (placeholder_irrelevant sqrt hs _ _ w).mp hmin
 
@@ -276,24 +276,24 @@ theorem wasserstein_eq_spec_dgm (sqrt : K → K) (c : K) (hs : SqrtSpec sqrt) (h
     repeated and diagonal points, every numeric scale — and EVERY `lsa` satisfying the contract:
     the returned value is the min-sum matching cost with the costs `euclid`, `diagL2`, `diagL2`,
     and no warning is emitted. -/
-theorem wasserstein_eq_spec (sqrt : K → K) (c : K) (hs : SqrtSpec sqrt) (hc : CosSpec c)
+theorem wasserstein_eq_spec (sqrt : K → K) (hs : SqrtSpec sqrt)
     (lsa : Mat K → List (Nat × Nat)) (hl : LsaContract lsa) (S T : List (K × K)) :
-    ∃ w rows, wasserstein sqrt c c lsa (lift S) (lift T) = .ok ⟨some w, false, false, rows⟩ ∧
+    ∃ w rows, wasserstein sqrt lsa (lift S) (lift T) = .ok ⟨some w, false, false, rows⟩ ∧
       IsMinSum (fun (i : Idx S) (j : Idx T) => euclid sqrt (S.get i) (T.get j))
         (fun i => diagL2 sqrt (S.get i)) (fun j => diagL2 sqrt (T.get j)) w := by
-  obtain ⟨w, rows, h1, h2⟩ := wasserstein_eq_spec_dgm sqrt c hs hc lsa hl (lift S) (lift T)
+  obtain ⟨w, rows, h1, h2⟩ := wasserstein_eq_spec_dgm sqrt hs lsa hl (lift S) (lift T)
   rw [warned_lift, warned_lift] at h1
   rw [finitePart_lift, finitePart_lift] at h2
   exact ⟨w, rows, h1, h2⟩
 
 /-- the statement of the task for diagrams with `b ≤ d` (the hypothesis is not needed, see the
     remark in the header; kept as the form in which the property is usually quoted) -/
-theorem wasserstein_eq_spec_of_le (sqrt : K → K) (c : K) (hs : SqrtSpec sqrt) (hc : CosSpec c)
+theorem wasserstein_eq_spec_of_le (sqrt : K → K) (hs : SqrtSpec sqrt)
     (lsa : Mat K → List (Nat × Nat)) (hl : LsaContract lsa) (S T : List (K × K))
     (_hS : ∀ p ∈ S, p.1 ≤ p.2) (_hT : ∀ p ∈ T, p.1 ≤ p.2) :
-    ∃ w rows, wasserstein sqrt c c lsa (lift S) (lift T) = .ok ⟨some w, false, false, rows⟩ ∧
+    ∃ w rows, wasserstein sqrt lsa (lift S) (lift T) = .ok ⟨some w, false, false, rows⟩ ∧
       SpecW sqrt S T w ∧ 0 ≤ w := by
-  obtain ⟨w, rows, h1, h2⟩ := wasserstein_eq_spec sqrt c hs hc lsa hl S T
+  obtain ⟨w, rows, h1, h2⟩ := wasserstein_eq_spec sqrt hs lsa hl S T
   refine ⟨w, rows, h1, h2, ?_⟩
   obtain ⟨⟨p, hp⟩, -⟩ := h2
   rw [← hp]
@@ -309,19 +309,19 @@ theorem wasserstein_eq_spec_of_le (sqrt : K → K) (c : K) (hs : SqrtSpec sqrt) 
 
 /-- the model run with the exhaustive solver — exactly what the driver command `ws.exh` executes (at
     `Float`) — returns the min-sum matching cost: instance `lsa := exhLsa` of the main theorem -/
-theorem exhaustive_model_eq_spec (sqrt : K → K) (c : K) (hs : SqrtSpec sqrt) (hc : CosSpec c)
+theorem exhaustive_model_eq_spec (sqrt : K → K) (hs : SqrtSpec sqrt)
     (d1 d2 : Dgm K) :
-    ∃ w rows, wasserstein sqrt c c exhLsa d1 d2 = .ok ⟨some w, warned d1, warned d2, rows⟩ ∧
+    ∃ w rows, wasserstein sqrt exhLsa d1 d2 = .ok ⟨some w, warned d1, warned d2, rows⟩ ∧
       SpecW sqrt (finitePart d1) (finitePart d2) w :=
-  wasserstein_eq_spec_dgm sqrt c hs hc exhLsa exhLsa_contract d1 d2
+  wasserstein_eq_spec_dgm sqrt hs exhLsa exhLsa_contract d1 d2
 
 /-- corollary: the value does not depend on which optimal assignment the solver returns -/
-theorem value_independent_of_solver (sqrt : K → K) (c : K) (hs : SqrtSpec sqrt) (hc : CosSpec c)
+theorem value_independent_of_solver (sqrt : K → K) (hs : SqrtSpec sqrt)
     (lsa lsa' : Mat K → List (Nat × Nat)) (hl : LsaContract lsa) (hl' : LsaContract lsa')
     (d1 d2 : Dgm K) :
-    (wasserstein sqrt c c lsa d1 d2).map (·.value) = (wasserstein sqrt c c lsa' d1 d2).map (·.value) := by
-  obtain ⟨w, rows, h1, h2⟩ := wasserstein_eq_spec_dgm sqrt c hs hc lsa hl d1 d2
-  obtain ⟨w', rows', h1', h2'⟩ := wasserstein_eq_spec_dgm sqrt c hs hc lsa' hl' d1 d2
+    (wasserstein sqrt lsa d1 d2).map (·.value) = (wasserstein sqrt lsa' d1 d2).map (·.value) := by
+  obtain ⟨w, rows, h1, h2⟩ := wasserstein_eq_spec_dgm sqrt hs lsa hl d1 d2
+  obtain ⟨w', rows', h1', h2'⟩ := wasserstein_eq_spec_dgm sqrt hs lsa' hl' d1 d2
   rw [h1, h1', minsum_unique _ _ _ w w' h2 h2']
   rfl
 
@@ -329,11 +329,11 @@ omit [LinearOrder K] [IsStrictOrderedRing K] in
 /-- **[P] `inf_dropped`.**  Points with non-finite death are dropped: the result on `d1, d2` is the
     result on their finite parts (for every solver, no contract needed), and each warning flag is
     set iff the corresponding diagram has such a point. -/
-theorem inf_dropped (sqrt : K → K) (cp sp : K) (lsa : Mat K → List (Nat × Nat)) (d1 d2 : Dgm K) :
-    ((wasserstein sqrt cp sp lsa d1 d2).map fun o => (o.value, o.rows))
-        = ((wasserstein sqrt cp sp lsa (lift (finitePart d1)) (lift (finitePart d2))).map
+theorem inf_dropped (sqrt : K → K) (lsa : Mat K → List (Nat × Nat)) (d1 d2 : Dgm K) :
+    ((wasserstein sqrt lsa d1 d2).map fun o => (o.value, o.rows))
+        = ((wasserstein sqrt lsa (lift (finitePart d1)) (lift (finitePart d2))).map
             fun o => (o.value, o.rows)) ∧
-      ∀ o, wasserstein sqrt cp sp lsa d1 d2 = .ok o →
+      ∀ o, wasserstein sqrt lsa d1 d2 = .ok o →
         (o.warn1 = true ↔ ∃ p ∈ d1, p.2 = none) ∧ (o.warn2 = true ↔ ∃ p ∈ d2, p.2 = none) := by
   constructor
   · simp only [wasserstein, prepared, finitePart_lift]
@@ -349,12 +349,11 @@ end main
 
 /-! ### 6. at the reals -/
 
-/-- **`wasserstein_eq_spec` at `ℝ`**, with the code's constants `cp = cos(π/4)`, `sp = sin(π/4)` and
-    `Real.sqrt`: the value is the minimum over all partial matchings of
+/-- **`wasserstein_eq_spec` at `ℝ`**, with `Real.sqrt`: the value is the minimum over all partial matchings of
     Σ ‖s − t‖₂ over matched pairs + Σ (d−b)/√2 over unmatched points. -/
 theorem wasserstein_eq_spec_real (lsa : Mat ℝ → List (Nat × Nat)) (hl : LsaContract lsa)
     (d1 d2 : Dgm ℝ) :
-    ∃ w rows, wasserstein Real.sqrt (Real.cos (Real.pi / 4)) (Real.sin (Real.pi / 4)) lsa d1 d2
+    ∃ w rows, wasserstein Real.sqrt lsa d1 d2
         = .ok ⟨some w, warned d1, warned d2, rows⟩ ∧
       IsMinSum
         (fun (i : Idx (finitePart d1)) (j : Idx (finitePart d2)) =>
@@ -362,15 +361,12 @@ theorem wasserstein_eq_spec_real (lsa : Mat ℝ → List (Nat × Nat)) (hl : Lsa
             + (((finitePart d1).get i).2 - ((finitePart d2).get j).2) ^ 2))
         (fun i => (((finitePart d1).get i).2 - ((finitePart d1).get i).1) / Real.sqrt 2)
         (fun j => (((finitePart d2).get j).2 - ((finitePart d2).get j).1) / Real.sqrt 2) w := by
-  have h : Real.sin (Real.pi / 4) = Real.cos (Real.pi / 4) := by
-    rw [Real.sin_pi_div_four, Real.cos_pi_div_four]
-  rw [h]
-  exact wasserstein_eq_spec_dgm Real.sqrt _ sqrtSpec_real cosSpec_real lsa hl d1 d2
+  exact wasserstein_eq_spec_dgm Real.sqrt sqrtSpec_real lsa hl d1 d2
 
--- non-vacuity of the main theorem: all hypotheses are met by ℝ, Real.sqrt, cos(π/4), some solver, and
+-- non-vacuity of the main theorem: all hypotheses are met by ℝ, Real.sqrt, some solver, and
 -- concrete diagrams with a repeated point, a diagonal point, a point of infinite death and an empty side
 example : ∃ (lsa : Mat ℝ → List (Nat × Nat)) (w : ℝ) (rows : _),
-    wasserstein Real.sqrt (Real.cos (Real.pi / 4)) (Real.sin (Real.pi / 4)) lsa
+    wasserstein Real.sqrt lsa
         [(0, some 1), (0, some 1), (2, some 2), (3, none)] [] = .ok ⟨some w, true, false, rows⟩ := by
   obtain ⟨lsa, hl⟩ := lsaContract_satisfiable (K := ℝ)
   obtain ⟨w, rows, h, -⟩ := wasserstein_eq_spec_real lsa hl [(0, some 1), (0, some 1), (2, some 2), (3, none)] []
@@ -378,7 +374,7 @@ example : ∃ (lsa : Mat ℝ → List (Nat × Nat)) (w : ℝ) (rows : _),
 
 -- … and with the computable solver the value can be read off: two copies of (0,1) and the diagonal
 -- point (2,2) against the empty diagram cost 1/√2 + 1/√2 + 0
-example : ∃ rows, wasserstein Real.sqrt (Real.cos (Real.pi / 4)) (Real.sin (Real.pi / 4)) exhLsa
+example : ∃ rows, wasserstein Real.sqrt exhLsa
     [(0, some 1), (0, some 1), (2, some 2), (3, none)] [] = .ok ⟨some (2 / Real.sqrt 2), true, false, rows⟩ := by
   obtain ⟨w, rows, h, hmin⟩ := wasserstein_eq_spec_real exhLsa exhLsa_contract
     [(0, some 1), (0, some 1), (2, some 2), (3, none)] []
